@@ -777,7 +777,7 @@ void updateComponentsVariablesUnitsNames(const std::string &name, const Componen
             auto importComponent = importModel->component(component->importReference());
             variable = importComponent->variable(variable->name());
         }
-        if (variable->units()->name() == name) {
+        if ((variable->units() != nullptr) && (variable->units()->name() == name)) {
             variable->setUnits(units);
         }
     }
